@@ -27,6 +27,7 @@ import (
 	"strconv"
 	"strings"
 	"time"
+	"unicode/utf8"
 
 	errorv1 "github.com/bufbuild/connect-go/internal/gen/connect/error/v1"
 )
@@ -842,6 +843,12 @@ func (e *connectWireError) MarshalJSON() ([]byte, error) {
 			return nil, err
 		}
 		wire.Details = details
+	}
+	if !utf8.ValidString(wire.Message) {
+		// Error messages often quote data sent by the peer, which may not be valid
+		// UTF-8. Protobuf's JSON mapping refuses to marshal such strings, and
+		// we'd end up sending no error at all.
+		wire.Message = strings.ToValidUTF8(wire.Message, string(utf8.RuneError))
 	}
 	return (&protoJSONCodec{}).Marshal(wire)
 }
